@@ -275,7 +275,8 @@ pub fn seeded_group(ctx: &mut Ctx, prop: &str, oracles: u32, clauses: u32, nkeys
     cfg.oracles = oracles;
     cfg.clauses = clauses;
     cfg.ro_mode = RO_MODE.with(|m| m.get());
-    let filler_bucket = 6u64;
+    // below the alphabet's bucket (3) and in the same group of eight: emptying the alphabet's bucket must leave it visible
+    let filler_bucket = 1u64;
     // all seeds share the filler keys' bucket; every seed gets its own closure (its extras differ)
     let mut group_states = 0usize;
     for spec in specs.iter() {
